@@ -25,7 +25,7 @@ var c16Ops = []string{
 	".a", ".ab", ".[0]", ".[1]", ".[]", `{"z": .}`, "(. as $x | $x)", "del(.[0])", "del(.a)", `. * {"c": 1}`, `. + {"c": 1}`,
 	"(.a = (.a | sort))", "(.a |= reverse)", "(.[0] = .[1])", "(.b = .a)", "(.a |= . + [9])", "(.[1] |= 7)", "unique_by(.a)", "[.[] | select(. != 1)]",
 	// something is computed from the value on the side (read-only) and the value itself goes on: where its nodes are must not change
-	"((.[1:]) as $t | .)", "((.a | .[1:]) as $t | .)", "((sort) as $t | .)", "((.a | reverse) as $t | .)", "(([.[]]) as $t | .)", "((.a | flatten) as $t | .)", "((. + [9]) as $t | .)", "((.a | unique) as $t | .)",
+	"(([.. | path]) as $t | .)", "(([.. | key]) as $t | .)", "((.[1:]) as $t | .)", "((.a | .[1:]) as $t | .)", "((sort) as $t | .)", "((.a | reverse) as $t | .)", "(([.[]]) as $t | .)", "((.a | flatten) as $t | .)", "((. + [9]) as $t | .)", "((.a | unique) as $t | .)",
 	"map_values(.)", "to_entries | from_entries", "del(.[2])", "del(.a[0])", "del(.[0][0])", "(.c = .a)", "sort_keys(.)", "with(.a; . = 3)", ".. | select(kind == \"seq\")",
 }
 
@@ -292,7 +292,15 @@ func c16Run(c *fw.Ctx) error {
 					c.Count("op_not_applicable", 1)
 					continue
 				}
-				key := fw.H(impl.Dump(true, append(res, root)...))
+				dump := impl.Dump(true, append(res, root)...)
+				for _, op := range s.pipe {
+					// a side evaluation leaves the dump unchanged; what it may leave behind in the nodes (memoised answers) is not
+					// part of the dump, so such a state is not merged with the state it started from
+					if strings.Contains(op, " as $t | .)") {
+						dump += "\x00after " + op
+					}
+				}
+				key := fw.H(dump)
 				if seen[key] {
 					c.Count("merged_states", 1)
 					continue
